@@ -213,11 +213,11 @@ func runC10(c *Ctx, pr *PropertyRun) {
 			find, query, multiGet = "FindAddressBooks", "QueryAddressBook", "MultiGetAddressBook"
 		}
 		table := map[string][]flowPair{
-			find:     collPairs,
-			query:    msPairs,
-			multiGet: msPairs,
-			dn.getObj:   append(append([]flowPair{}, hdrPairs...), flowPair{"body-decode", contentField, true, "the decoded response body"}, flowPair{"net/url.URL.Path", O + ".Path", true, "the path the object was fetched from"}),
-			dn.putObj:   append(append([]flowPair{}, hdrPairs...), flowPair{"header:Location", O + ".Path", false, "the path the server stored the object under"}, flowPair{"param:(*" + sh + ".Client)." + dn.putObj + "#2:path", O + ".Path", true, "the path the object was put to"}),
+			find:      collPairs,
+			query:     msPairs,
+			multiGet:  msPairs,
+			dn.getObj: append(append([]flowPair{}, hdrPairs...), flowPair{"body-decode", contentField, true, "the decoded response body"}, flowPair{"net/url.URL.Path", O + ".Path", true, "the path the object was fetched from"}),
+			dn.putObj: append(append([]flowPair{}, hdrPairs...), flowPair{"header:Location", O + ".Path", false, "the path the server stored the object under"}, flowPair{"param:(*" + sh + ".Client)." + dn.putObj + "#2:path", O + ".Path", true, "the path the object was put to"}),
 		}
 		if pkg == pkgCarddav {
 			table["SyncCollection"] = []flowPair{
@@ -280,6 +280,7 @@ func runC10(c *Ctx, pr *PropertyRun) {
 	}
 
 	propSetTables(c, pr, "C10", []string{pkgCaldav, pkgCarddav})
+	freshPropTableRule(c, pr, "C10")
 	urlParseRule(c, pr, "C10", nil)
 	c10Multiget(c, pr)
 	c10ErrorResponse(c, pr)
@@ -287,6 +288,10 @@ func runC10(c *Ctx, pr *PropertyRun) {
 	// what the client makes of per-resource statuses (deleted members of a
 	// sync-collection, failing multiget entries): the tables of C14
 	c14TablesFor(c, pr, "C10")
+	// per-response holders are fresh (a tolerated 404 leaves the zero value)
+	freshHolderRule(c, pr, "C10")
+	// what is decoded for one property type is not another type's cached answer
+	cacheKeysRule(c, pr, "C10")
 	// tags, dates and hrefs are written and read by inverse pairs, in the
 	// multistatus and in the headers (shared with C16.pairs)
 	c16Pairs(c, pr, "C10", func(what string) bool {
@@ -616,6 +621,7 @@ func runC05(c *Ctx, pr *PropertyRun) {
 	}
 
 	propSetTables(c, pr, "C05", []string{pkgWebdav})
+	freshPropTableRule(c, pr, "C05")
 	c05ReadDir(c, pr, "C05")
 	truncateRule(c, pr, "C05", nil)
 
@@ -1222,6 +1228,37 @@ func runC04(c *Ctx, pr *PropertyRun) {
 	rc.Exhaustive = true
 	pr.Rules = append(pr.Rules, rc)
 	codeDecidedRefusals(c, rc, exploreFileServer(c, rc), map[string]bool{"PUT": true, "DELETE": true})
+
+	// ... and nothing has changed when it does: a PUT or DELETE refused with
+	// 412/400 while every operating-system call succeeded leaves the tree as
+	// it was (the net change per resource of the explored run is empty)
+	ne := NewRule("C04", "C04.refusal-no-effect", "a PUT or DELETE answered 412 or 400 with no failing operating-system call has no net effect on the tree — explored through the whole file server (E2)")
+	ne.Exhaustive = true
+	pr.Rules = append(pr.Rules, ne)
+	{
+		seen := map[string]bool{}
+		for _, run := range exploreFileServer(c, ne) {
+			if (run.Method != "PUT" && run.Method != "DELETE") || (run.Status != "412" && run.Status != "400") {
+				continue
+			}
+			changes, feasible, faults := run.netChange()
+			if !feasible || faults > 0 {
+				continue
+			}
+			ne.Role("refused-run")
+			ne.Ob(len(changes) == 0)
+			if len(changes) == 0 {
+				continue
+			}
+			k := run.Method + "|" + run.Status + "|" + strings.Join(changes, ",")
+			if seen[k] {
+				continue
+			}
+			seen[k] = true
+			ne.Violation("refused-but-changed|"+k, "-", fmt.Sprintf("%s is refused with %s although every operating-system call succeeded, and the tree has changed (%s): a failed precondition must leave everything as it was. Trace: %s", run.Method, run.Status, strings.Join(changes, ", "), run.describe()), nil)
+		}
+		ne.RequireRole("refused-run")
+	}
 
 	// the option fields arrive at the check in the right positions
 	arg := NewRule("C04", "C04.check-args", "LocalFileSystem hands options.IfMatch to the check's If-Match parameter and options.IfNoneMatch to its If-None-Match parameter, unaltered, together with the Stat result of the resource (E1 PAIR)")
